@@ -24,6 +24,15 @@ T = TypeVar("T")
 logger = logging.getLogger(__name__)
 
 
+def _reserve_name(graph: _core.Graph, value: _core.Value) -> None:
+    """Tell the graph's name authority about the name of a value that joins the graph as input or initializer."""
+    # The authority does not exist yet while the graph is being constructed; the
+    # constructor registers the names of its inputs and initializers itself
+    name_authority = getattr(graph, "_name_authority", None)
+    if name_authority is not None and value.name:
+        name_authority.reserve_value_name(value.name)
+
+
 class _GraphIO(collections.UserList["_core.Value"]):
     """The inputs and outputs of a Graph."""
 
@@ -206,6 +215,7 @@ class GraphInputs(_GraphIO):
         self._ref_counter[value] += 1
         value._is_graph_input = True
         value._graph = self._graph
+        _reserve_name(self._graph, value)
 
     def _maybe_unset_graph(self, value: _core.Value) -> None:
         """Unset the graph for the value."""
@@ -293,6 +303,7 @@ class GraphInitializers(collections.UserDict[str, "_core.Value"]):
         self._check_value(value)
         value._is_initializer = True
         value._graph = self._graph
+        _reserve_name(self._graph, value)
 
     def _maybe_unset_graph(self, value: _core.Value) -> None:
         """Unset the graph for the value."""
